@@ -165,7 +165,7 @@ func checkC02(c *Check) {
 			nz := false
 			for _, a := range factsAt(call.Block()) {
 				if a.Op == "false" {
-					if h, _ := callOf(a.X); h != nil && calleeMethod(h) == "IsZero" && rate != nil && strings.HasPrefix(Sym(h.Call.Args[0]), "p:"+rate.Name()) {
+					if h, _ := callOf(a.X); h != nil && calleeMethod(h) == "IsZero" && rate != nil && strings.HasPrefix(Sym(h.Call.Args[0]), "p:"+paramName(rate)) {
 						nz = true
 					}
 				}
@@ -399,7 +399,7 @@ func rootList(s string) string {
 
 func paramNamed(fn *ssa.Function, name string) *ssa.Parameter {
 	for _, p := range fn.Params {
-		if p.Name() == name {
+		if paramName(p) == name {
 			return p
 		}
 	}
@@ -414,6 +414,19 @@ func recordFreshAt(fn *ssa.Function, ptr ssa.Value, s *ssa.Call, use ssa.Instruc
 		if p.Comment == "complit" {
 			return true, ""
 		}
+		if p.Parent() == s.Parent() && instrDominates(s, p) {
+			// the variable itself comes into being after the settlement (built field by field); a whole record copied
+			// into it must itself be loaded after the settlement
+			stale := false
+			for _, rr := range *p.Referrers() {
+				if st, ok := rr.(*ssa.Store); ok && st.Addr == ssa.Value(p) && !freshAfter(st.Val, s) {
+					stale = true
+				}
+			}
+			if !stale {
+				return true, ""
+			}
+		}
 		isFreshStore := func(in ssa.Instruction) bool {
 			st, ok := in.(*ssa.Store)
 			return ok && st.Addr == ssa.Value(p) && freshAfter(st.Val, s)
@@ -424,6 +437,9 @@ func recordFreshAt(fn *ssa.Function, ptr ssa.Value, s *ssa.Call, use ssa.Instruc
 		return false, "record variable '" + p.Comment + "' was loaded before the settlement and is written back after it (settlement's credit is overwritten / paid out stale)"
 	case *ssa.IndexAddr:
 		lst := p.X
+		if use.Parent() != p.Parent() {
+			lst = callerValue(lst)
+		}
 		if u, ok := lst.(*ssa.UnOp); ok {
 			if a, ok := u.X.(*ssa.Alloc); ok {
 				isFreshStore := func(in ssa.Instruction) bool {
@@ -735,14 +751,20 @@ func (c *Check) staleRecordRule(rule string, fn *ssa.Function, s *ssa.Call, mut 
 		// helper is represented there by the helper's call
 		home := call.Parent()
 		sHere := s
+		var useHere ssa.Instruction = call
+		liftArgs := false
 		if s.Parent() != home {
-			li, _ := liftTo(home, s).(*ssa.Call)
-			if li == nil {
+			if li, _ := liftTo(home, s).(*ssa.Call); li != nil {
+				sHere = li
+			} else if lu := liftTo(s.Parent(), call); lu != nil {
+				// the write sits in a new helper called after the settlement: compared at the helper's call, with the
+				// helper's parameters read as the caller's arguments
+				home, useHere, liftArgs = s.Parent(), lu, true
+			} else {
 				continue
 			}
-			sHere = li
 		}
-		if !instrDominates(sHere, call) {
+		if !instrDominates(sHere, useHere) {
 			continue
 		}
 		args := append([]ssa.Value{}, call.Common().Args...)
@@ -757,7 +779,10 @@ func (c *Check) staleRecordRule(rule string, fn *ssa.Function, s *ssa.Call, mut 
 			if kind == "" {
 				continue
 			}
-			fresh, why := recordFreshAt(home, a, sHere, call)
+			if liftArgs {
+				a = callerValue(a)
+			}
+			fresh, why := recordFreshAt(home, a, sHere, useHere)
 			c.Ob(rule, name+": "+kind+" written after settlement was loaded after it ("+calleeMethod(call)+" of "+symShort(a)+")", call.Pos(), fresh, why)
 		}
 	}
@@ -824,4 +849,20 @@ func (c *Check) decodeTargetRule(rule string, rels []string) {
 	if n < 2 {
 		c.Fail("%s-%s lost instances: %d decode sites in loops", c.ID, rule, n)
 	}
+}
+
+// callerValue: a parameter of a new helper (with a unique call site) read as the argument the caller passes.
+func callerValue(v ssa.Value) ssa.Value {
+	for d := 0; d < 4; d++ {
+		p, ok := v.(*ssa.Parameter)
+		if !ok {
+			break
+		}
+		a := transparentArg(p)
+		if a == nil {
+			break
+		}
+		v = a
+	}
+	return v
 }
